@@ -26,6 +26,7 @@ EXPLANATION = (
     "as_dataframe, tuple unpacking) reads the one design_matrix, unknown names meet a raising guard; R17.4 the "
     "common matrix re-uses the training slices and stacks the same terms in the same order; R17.5 printing "
     "contains no assert/raise and reports the live shape; R17.6 one frame reaches all three matrices."
+    " R17.8 one holder per component object (C06's R6.4)."
 )
 ASSUMPTIONS = [
     "np.column_stack preserves list order and contributes shape[1] columns per 2-D block and one per 1-D block",
